@@ -264,9 +264,12 @@ def _field_needs_byte_order(field, type_definition, ir):
 
 def _field_may_have_null_byte_order(field, type_definition, ir):
     """Returns true if "Null" is a valid byte order for the given field."""
-    # If the field is one unit in length, then byte order does not matter.
+    # If the field is one unit in length, then byte order does not matter.  (An
+    # array's elements are read through their own, element-sized views, so for
+    # arrays only the element size counts.)
     if (
-        ir_util.is_constant(field.location.size)
+        not field.type.has_field("array_type")
+        and ir_util.is_constant(field.location.size)
         and ir_util.constant_value(field.location.size) == 1
     ):
         return True
